@@ -56,6 +56,22 @@ fn inhabitants(t: &M, first_only: bool) -> Vec<(String, M)> {
         M::Type => vec![("int".to_owned(), M::Int), ("bool".to_owned(), M::Bool)],
         M::Pi(_, false, a, b) => {
             let (Some(b), true) = (crate::model::mterm::shift(b, 0, -1), sem::is_closed(a)) else { return vec![] };
+            // a function between base types *uses* its argument, so an argument of the wrong kind that
+            // a wrongly accepted program hands to it gets stuck instead of being ignored
+            let using: Option<(&str, M)> = {
+                let w = || rc(M::Var(Rc::from("w"), 0));
+                let lit = |n: i32| rc(M::Lit(n.into()));
+                match (&**a, &b) {
+                    (M::Int, M::Int) => Some(("((w : int) => w + 1)", M::Bin(crate::model::mterm::Op::Add, w(), lit(1)))),
+                    (M::Int, M::Bool) => Some(("((w : int) => w < 1)", M::Bin(crate::model::mterm::Op::Lt, w(), lit(1)))),
+                    (M::Bool, M::Int) => Some(("((w : bool) => if w then 1 else 0)", M::If(w(), lit(1), lit(0)))),
+                    (M::Bool, M::Bool) => Some(("((w : bool) => if w then false else true)", M::If(w(), rc(M::False), rc(M::True)))),
+                    _ => None,
+                }
+            };
+            if let Some((text, body)) = using {
+                return vec![(text.to_owned(), M::Lam(Rc::from("w"), false, a.clone(), rc(body)))];
+            }
             let dom = surface::print(&sem::m_to_s(a, &mut vec![]));
             inhabitants(&b, true)
                 .into_iter()
